@@ -134,6 +134,8 @@ struct G<'a> {
     lists: Vec<(String, Vec<String>)>,
     consts: Vec<String>,
     funcs: Vec<(String, usize, bool)>, // name, argc, prints text
+    /// functions with one `ref` parameter that print two lines around an assignment through it
+    ref_funcs: Vec<String>,
     tunnels: Vec<String>,
     threads: Vec<String>,
     externals: Vec<(String, usize)>,
@@ -188,7 +190,10 @@ impl<'a> G<'a> {
                 return format!("RANDOM(1, {})", self.rng.range(1, 6));
             }
             if self.cfg.functions && self.rng.chance(1, 8) {
-                let fs: Vec<(String, usize, bool)> = self.funcs.iter().filter(|f| !f.2).cloned().collect();
+                // also functions that print lines: the host can then stop inside the call with an
+                // operand of the surrounding expression still waiting on the evaluation stack
+                let any = self.rng.chance(1, 3);
+                let fs: Vec<(String, usize, bool)> = self.funcs.iter().filter(|f| any || !f.2).cloned().collect();
                 if !fs.is_empty() {
                     let f = self.rng.pick(&fs).clone();
                     let args: Vec<String> = (0..f.1).map(|_| self.int_atom()).collect();
@@ -550,6 +555,15 @@ impl<'a> G<'a> {
                     self.line(indent, &format!("{m} asg{sid} x={{{v}}} want={w}; post{sid}"));
                 }
             }
+            5 if self.rng.chance(1, 2) => {
+                // the call is the first thing inside a tag that opens the line after a finished line
+                if let Some((c, w)) = self.ext_call(false, sid) {
+                    self.line(indent, &format!("{m} pre{sid} line"));
+                    self.line(indent, &format!("# {{{c}}} tg{sid}"));
+                    self.line(indent, &format!("{m} tagged{sid} post{sid}"));
+                    let _ = w;
+                }
+            }
             5 | 6 => {
                 // inside a string
                 if let (Some((c, w)), false) = (self.ext_call(true, sid), self.strs.is_empty()) {
@@ -610,6 +624,12 @@ impl<'a> G<'a> {
             11 if self.cfg.threads && !self.threads.is_empty() && !in_func && depth > 0 => {
                 let t = self.rng.pick(&self.threads).clone();
                 self.line(indent, &format!("<- {t}"));
+            }
+            12 if self.cfg.functions && !self.ref_funcs.is_empty() && !self.ints.is_empty() && !in_func && self.rng.chance(1, 2) => {
+                // a live `ref` to a global while the function prints its lines
+                let f = self.rng.pick(&self.ref_funcs).clone();
+                let v = self.rng.pick(&self.ints).clone();
+                self.line(indent, &format!("~ {f}({v})"));
             }
             12 if self.cfg.functions && !self.funcs.is_empty() => {
                 let f = self.rng.pick(&self.funcs).clone();
@@ -767,6 +787,7 @@ pub fn render(rng: &mut Rng, cfg: &GenCfg) -> String {
         lists: vec![],
         consts: vec![],
         funcs: vec![],
+        ref_funcs: vec![],
         tunnels: vec![],
         threads: vec![],
         externals: vec![],
@@ -890,6 +911,9 @@ pub fn render(rng: &mut Rng, cfg: &GenCfg) -> String {
         let argc = g.rng.below(3);
         let prints = g.rng.chance(1, 2);
         g.funcs.push((format!("{}fn{i}", g.cfg.prefix), argc, prints));
+    }
+    if g.cfg.functions && !g.ints.is_empty() && g.rng.chance(1, 2) {
+        g.ref_funcs.push(format!("{}fnr0", g.cfg.prefix));
     }
     let nt = if g.cfg.tunnels { 1 + g.rng.below(2) } else { 0 };
     for i in 0..nt {
@@ -1022,7 +1046,7 @@ pub fn render(rng: &mut Rng, cfg: &GenCfg) -> String {
         g.funcs = saved[..i].to_vec();
         let saved_ext = std::mem::take(&mut g.externals);
         if f.2 {
-            let n = 1 + g.rng.below(2);
+            let n = 1 + g.rng.below(3);
             for _ in 0..n {
                 let m = g.m();
                 let bits = if g.rng.chance(1, 2) && !params.is_empty() { format!(" a={{{}}}", params[0]) } else { String::new() };
@@ -1046,6 +1070,21 @@ pub fn render(rng: &mut Rng, cfg: &GenCfg) -> String {
         }
         g.funcs = saved;
         g.externals = saved_ext;
+        g.line(0, "");
+    }
+
+    // ---- ref functions
+    let ref_funcs = g.ref_funcs.clone();
+    for (i, f) in ref_funcs.iter().enumerate() {
+        g.knot = 90 + i;
+        g.line(0, &format!("=== function {f}(ref r) ==="));
+        let m = g.m();
+        g.line(0, &format!("{m} rline a {{r}}"));
+        g.line(0, "~ r = r + 1");
+        let m2 = g.m();
+        g.line(0, &format!("{m2} rline b {{r}}"));
+        g.line(0, "~ r = r + 2");
+        g.line(0, "~ return r");
         g.line(0, "");
     }
 
